@@ -286,6 +286,7 @@ def _unescape(s):
 
 def parse_module(path):
     funcs, structs, globs = {}, {}, {}
+    aliases = {}
     cur = None
     label = None
     with open(path) as fh:
@@ -298,6 +299,10 @@ def parse_module(path):
             m = re.match(r"^(%[\w.\":$]+) = type (.*)$", line)
             if m:
                 structs[m.group(1)] = m.group(2)
+                continue
+            m = re.match(r"^@([\w.$]+) = .*\balias\b.*@([\w.$]+)\s*$", line)
+            if m:
+                aliases[m.group(1)] = m.group(2)  # e.g. the complete-object constructor C1 of a class is an alias of C2
                 continue
             m = re.match(r"^(@[\w.$\"]+) = (.*)$", line)
             if m and not m.group(2).startswith(("alias", "ifunc")):
@@ -357,6 +362,9 @@ def parse_module(path):
         body = re.sub(r"^(tail |notail |musttail )", "", body)
         op = body.split()[0]
         cur.blocks[label].append(Instr(res, op, body))
+    for a, t in aliases.items():
+        if t in funcs and a not in funcs:
+            funcs[a] = funcs[t]
     return funcs, structs, globs
 
 
@@ -768,9 +776,13 @@ class Machine:
             return self.const_double(tok)
         if tok.startswith("getelementptr"):
             m = re.match(r"getelementptr (?:inbounds )?\((.*)\)$", tok)
+            if not m:
+                raise Inconclusive(f"operand {tok!r}")
             return self.gep(st, fr, split_top(m.group(1)))
         if tok.startswith("bitcast"):
             m = re.match(r"bitcast \((.*) to .*\)$", tok)
+            if not m:
+                raise Inconclusive(f"operand {tok!r}")
             return self.typed(st, fr, m.group(1))[1]
         try:
             return int(tok)
@@ -1097,7 +1109,9 @@ class Machine:
             return
         if op == "load":
             if I.cache is None:
-                m = re.match(r"load (?:volatile )?(.*?), (.*)$", t)
+                # atomic accesses (e.g. the guard byte of a function-local static) are plain accesses here: one thread
+                t_ = re.sub(r"\s+(?:unordered|monotonic|acquire|release|acq_rel|seq_cst)\s*$", "", re.sub(r",\s*align \d+\s*$", "", t))
+                m = re.match(r"load (?:atomic )?(?:volatile )?(.*?), (.*)$", t_)
                 I.cache = (m.group(1).strip(), m.group(2))
             ty, ps = I.cache
             _, p = self.typed(st, fr, ps)
@@ -1105,7 +1119,8 @@ class Machine:
             return
         if op == "store":
             if I.cache is None:
-                m = re.match(r"store (?:volatile )?(.*)$", t)
+                t_ = re.sub(r"\s+(?:unordered|monotonic|acquire|release|acq_rel|seq_cst)\s*$", "", re.sub(r",\s*align \d+\s*$", "", t))
+                m = re.match(r"store (?:atomic )?(?:volatile )?(.*)$", t_)
                 I.cache = split_top(m.group(1))
             a, b = I.cache
             ty, v = self.typed(st, fr, a)
